@@ -2,7 +2,7 @@
 from common import *  # noqa
 import dbtie
 
-PROFILE = {'scenario_pref': ['fold_twins', 'big_ties', 'same_count', 'hash_twins', 'ooo_batch', 'nested_not', 'odd_strings'], 'p_write': 0.3}
+PROFILE = {'scenario_pref': ['nested_not', 'fold_twins', 'big_ties', 'same_count', 'hash_twins', 'ooo_batch', 'nested_not', 'odd_strings'], 'p_write': 0.3}
 
 
 def main(tier, seed):
@@ -12,7 +12,7 @@ def main(tier, seed):
     def regen():
         rc, out = sh([PY, str(VERIF / "harness" / "py2coq_guard.py"), str(REPO / "tinyflux" / "database.py"), str(COQ / "gen" / "GuardGen.v")], timeout=60)
         refused.extend(l for l in out.splitlines() if l.startswith("REFUSED"))
-    return dbtie.db_check("C01", tier, seed, PROFILE, 500, 6000, "Prop_C01",
+    return dbtie.db_check("C01", tier, seed, PROFILE, 800, 6000, "Prop_C01",
                           "user callables and re are an environment the theorems quantify over; the tie instantiates them with the twin table",
                           pre=regen, extra_cov={"translator": {"source": "tinyflux/database.py: index_is_exact -> coq/gen/GuardGen.v (regenerated on this run)",
                                                                "refused": refused, "equivalence_theorem": "gen_index_is_exact_eq"}})
